@@ -165,6 +165,36 @@ fn run_mode(words: &[&str], ctx: &mut Ctx, detail: bool) -> String {
     if !["iter", "unpaged", "batch"].contains(&api) || (api != "iter" && slow != 0) {
         return "bad-case".into();
     }
+    // member flags of a batch (`bm=010`: one char per member statement; default: two members with the OPPOSITE flag)
+    let bm: Vec<bool> = match p.str("bm") {
+        None => vec![idem == 0; 2],
+        Some(x) if !x.is_empty() && x.len() <= 6 && x.chars().all(|c| c == '0' || c == '1') => x.chars().map(|c| c == '1').collect(),
+        Some(_) => return "bad-case".into(),
+    };
+    // entry point: `session` (Session::*) or `caching` (CachingSession::batch / execute_unpaged / execute_iter);
+    // `vals=1`: query_unpaged / query_iter WITH values (prepared internally). (`execute_iter_preserialized` is compiled
+    // only with cfg(scylla_unstable) + feature unstable-csharp-rs; it is a wrapper of the `execute_iter_nongeneric` that
+    // `execute_iter` goes through.)
+    let via = p.str("via").unwrap_or("session");
+    let Some(vals) = p.num_or("vals", 0) else { return "bad-case".into() };
+    if !["session", "caching"].contains(&via) || vals > 1 || (vals == 1 && kind != "query") {
+        return "bad-case".into();
+    }
+    // where the speculative policy (max, iv) lives: `default` = the session's default profile; `stmt:<dmax|->` = on the
+    // STATEMENT's profile handle while the session default carries another policy (max = dmax) or none; `remap:<dmax|->` =
+    // the statement's handle first points to a policy-less profile and is then re-mapped (`map_to_another_profile`)
+    let prof = p.str("prof").unwrap_or("default");
+    let (prof_kind, dmax): (&str, Option<u64>) = match prof.split_once(':') {
+        None if prof == "default" => ("default", None),
+        Some((k, d)) if k == "stmt" || k == "remap" => match d {
+            "-" => (k, None),
+            x => match x.parse::<u64>() {
+                Ok(v) if v <= 8 => (k, Some(v)),
+                _ => return "bad-case".into(),
+            },
+        },
+        _ => return "bad-case".into(),
+    };
     let order: Option<Vec<(usize, Option<u32>)>> = match p.str("order") {
         None => None,
         Some(o) => {
@@ -269,47 +299,91 @@ fn run_mode(words: &[&str], ctx: &mut Ctx, detail: bool) -> String {
                 shard,
             ));
         }
-        let profile = builder
-            .speculative_execution_policy(Some(Arc::new(SimpleSpeculativeExecutionPolicy {
-                max_retry_count: max as usize,
-                retry_interval: Duration::from_millis(iv),
-            })))
-            .retry_policy(Arc::new(FallthroughRetryPolicy::new()))
-            .request_timeout(Some(Duration::from_secs(30)))
-            .build();
-        let handle = profile.into_handle();
-        let session = match connect(&cluster, |b| b.default_execution_profile_handle(handle.clone())).await {
+        let builder = builder.retry_policy(Arc::new(FallthroughRetryPolicy::new())).request_timeout(Some(Duration::from_secs(30)));
+        let with_policy = |m: Option<u64>| {
+            builder
+                .clone()
+                .speculative_execution_policy(m.map(|m| {
+                    Arc::new(SimpleSpeculativeExecutionPolicy { max_retry_count: m as usize, retry_interval: Duration::from_millis(iv) })
+                        as Arc<dyn scylla::policies::speculative_execution::SpeculativeExecutionPolicy>
+                }))
+                .build()
+        };
+        // the profile that carries THE policy (max), the session default, and the handle put on the statement (if any)
+        let policy_profile = with_policy(Some(max));
+        let (default_handle, stmt_handle) = match prof_kind {
+            "default" => (policy_profile.into_handle(), None),
+            "stmt" => (with_policy(dmax).into_handle(), Some(policy_profile.into_handle())),
+            _ => {
+                let mut h = with_policy(None).into_handle();
+                h.map_to_another_profile(policy_profile);
+                (with_policy(dmax).into_handle(), Some(h))
+            }
+        };
+        let session = match connect(&cluster, |b| b.default_execution_profile_handle(default_handle.clone())).await {
             Ok(s) => s,
             Err(skip) => return skip,
         };
+        let caching = scylla::client::caching_session::CachingSession::<std::collections::hash_map::RandomState>::from(session, 16);
+        let session = caching.get_session();
+        let use_caching = via == "caching";
         if api != "iter" {
             // unpaged APIs: one request; the reply is held, so every execution the policy may start is started
             let res: Result<(), String> = if api == "batch" {
                 use scylla::statement::batch::{Batch, BatchType};
                 let mut batch = Batch::new(BatchType::Logged);
-                for _ in 0..2 {
-                    let mut st = Statement::new(INSERT);
-                    st.set_is_idempotent(idem == 0); // the opposite of the batch's flag
-                    batch.append_statement(st);
+                let mut values: Vec<(Vec<u8>, i32)> = Vec::new();
+                for (i, member_idem) in bm.iter().enumerate() {
+                    // members are unprepared or prepared statements; their flag must never reach the gate
+                    if kind == "exec" && !use_caching {
+                        match session.prepare(INSERT).await {
+                            Err(_) => return "e2e-skip prepare-failed".to_owned(),
+                            Ok(mut ps) => {
+                                ps.set_is_idempotent(*member_idem);
+                                batch.append_statement(ps);
+                            }
+                        }
+                    } else {
+                        let mut st = Statement::new(INSERT);
+                        st.set_is_idempotent(*member_idem);
+                        batch.append_statement(st);
+                    }
+                    values.push((vec![i as u8], i as i32));
                 }
                 batch.set_is_idempotent(idem != 0);
-                session.batch(&batch, ((vec![1u8], 1i32), (vec![2u8], 2i32))).await.map(|_| ()).map_err(|e| e.to_string())
-            } else if kind == "query" {
+                batch.set_execution_profile_handle(stmt_handle.clone());
+                if use_caching {
+                    caching.batch(&batch, values).await.map(|_| ()).map_err(|e| e.to_string())
+                } else {
+                    session.batch(&batch, values).await.map(|_| ()).map_err(|e| e.to_string())
+                }
+            } else if use_caching {
                 let mut st = Statement::new(SELECT_ALL);
                 st.set_is_idempotent(idem != 0);
-                session.query_unpaged(st, ()).await.map(|_| ()).map_err(|e| e.to_string())
+                st.set_execution_profile_handle(stmt_handle.clone());
+                caching.execute_unpaged(st, ()).await.map(|_| ()).map_err(|e| e.to_string())
+            } else if kind == "query" {
+                let mut st = Statement::new(if vals == 1 { SELECT } else { SELECT_ALL });
+                st.set_is_idempotent(idem != 0);
+                st.set_execution_profile_handle(stmt_handle.clone());
+                if vals == 1 {
+                    session.query_unpaged(st, (vec![7u8],)).await.map(|_| ()).map_err(|e| e.to_string())
+                } else {
+                    session.query_unpaged(st, ()).await.map(|_| ()).map_err(|e| e.to_string())
+                }
             } else {
                 match session.prepare(SELECT_ALL).await {
                     Err(_) => return "e2e-skip prepare-failed".to_owned(),
                     Ok(mut ps) => {
                         ps.set_is_idempotent(idem != 0);
+                        ps.set_execution_profile_handle(stmt_handle.clone());
                         session.execute_unpaged(&ps, ()).await.map(|_| ()).map_err(|e| e.to_string())
                     }
                 }
             };
             tokio::time::sleep(Duration::from_millis(20)).await;
             let seen = seen.lock().unwrap().clone();
-            let what = format!("n={} sh={} idem={} max={} api={} kind={} lb={} seen(page,node,shard)={:?}", n, sh, idem, max, api, kind, lb, seen);
+            let what = format!("n={} sh={} idem={} max={} api={} kind={} via={} bm={:?} prof={} lb={} seen(page,node,shard)={:?}", n, sh, idem, max, api, kind, via, bm, prof, lb, seen);
             if let Err(e) = res {
                 ctx.fail(format!("e2e spec: the unpaged request failed ({}); {}", e.replace(['\n', '\t'], " "), what));
             }
@@ -331,11 +405,18 @@ fn run_mode(words: &[&str], ctx: &mut Ctx, detail: bool) -> String {
             }
             return format!("spec {} requests={} {}", api, seen.len(), "end");
         }
-        let pager = if kind == "query" {
+        let pager = if use_caching {
             let mut st = Statement::new(SELECT_ALL);
             st.set_is_idempotent(idem != 0);
             st.set_page_size(2);
-            session.query_iter(st, ()).await
+            st.set_execution_profile_handle(stmt_handle.clone());
+            caching.execute_iter(st, ()).await
+        } else if kind == "query" {
+            let mut st = Statement::new(if vals == 1 { SELECT } else { SELECT_ALL });
+            st.set_is_idempotent(idem != 0);
+            st.set_page_size(2);
+            st.set_execution_profile_handle(stmt_handle.clone());
+            if vals == 1 { session.query_iter(st, (vec![7u8],)).await } else { session.query_iter(st, ()).await }
         } else {
             let mut ps = match session.prepare(SELECT_ALL).await {
                 Ok(ps) => ps,
@@ -343,6 +424,7 @@ fn run_mode(words: &[&str], ctx: &mut Ctx, detail: bool) -> String {
             };
             ps.set_is_idempotent(idem != 0);
             ps.set_page_size(2);
+            ps.set_execution_profile_handle(stmt_handle.clone());
             session.execute_iter(ps, ()).await
         };
         let mut got: Vec<i32> = Vec::new();
@@ -374,7 +456,7 @@ fn run_mode(words: &[&str], ctx: &mut Ctx, detail: bool) -> String {
         tokio::time::sleep(Duration::from_millis(20)).await;
         // ------------------------------------------------------------------ oracle
         let seen = seen.lock().unwrap().clone();
-        let what = format!("n={} sh={} idem={} max={} slow={} kind={} lb={} seen(page,node,shard)={:?}", n, sh, idem, max, slow, kind, lb, seen);
+        let what = format!("n={} sh={} idem={} max={} slow={} kind={} via={} prof={} lb={} seen(page,node,shard)={:?}", n, sh, idem, max, slow, kind, via, prof, lb, seen);
         if failed || got != vec![0, 1, 2, 3, 4, 5] {
             ctx.fail(format!("e2e spec: the stream {} with rows {:?}; {}", if failed { "failed" } else { "ended" }, got, what));
         }
